@@ -31,18 +31,18 @@ type connTask struct {
 }
 
 type connSim struct {
-	r        *Run
-	mu       sync.Mutex
-	cond     *sync.Cond
-	parked   []*connTask
-	seq      int
-	closed   bool
-	open     map[uint64]*simConn // established, by connreq id
-	ids      []uint64
-	banned   map[string]bool
-	maxOpen  int
-	dials    int
-	fails    int
+	r       *Run
+	mu      sync.Mutex
+	cond    *sync.Cond
+	parked  []*connTask
+	seq     int
+	closed  bool
+	open    map[uint64]*simConn // established, by connreq id
+	ids     []uint64
+	banned  map[string]bool
+	maxOpen int
+	dials   int
+	fails   int
 }
 
 func (s *connSim) park(kind, addr string) *connTask {
